@@ -6,6 +6,7 @@ package main
 
 import (
 	"bufio"
+	"bytes"
 	"fmt"
 	"os"
 	"os/exec"
@@ -241,6 +242,31 @@ func (w *apiWorker) op(f []string) (out string) {
 			return "err-inflate"
 		}
 		return hx(o.Hash) + " " + hx(content)
+	case "obj.big":
+		// a large periodic payload named by its pattern and repeat count: stored, the file inflated independently,
+		// read back through GetObject; the answer is the id, the length and the SHA-1 of the bytes read back
+		n, _ := strconv.Atoi(f[3])
+		data := bytes.Repeat(unhx(f[2]), n)
+		o, err := object.NewObject(kindOf(f[1]), data)
+		if err != nil {
+			return "err"
+		}
+		if err := o.Write(w.root); err != nil {
+			return "err-write"
+		}
+		file, err := os.ReadFile(w.objPath(o.Hash))
+		if err != nil {
+			return "err-nofile"
+		}
+		content, err := inflate(file)
+		if err != nil || hx(sha1sum(content)) != hx(o.Hash) {
+			return "err-inflate"
+		}
+		g, err := object.GetObject(w.root, o.Hash)
+		if err != nil {
+			return hx(o.Hash) + " get-err"
+		}
+		return hx(o.Hash) + " " + g.Type.String() + " " + strconv.Itoa(len(g.Data)) + " " + hx(sha1sum(g.Data))
 	case "obj.get":
 		o, err := object.GetObject(w.root, unhx(f[1]))
 		if err != nil {
